@@ -137,10 +137,10 @@ def get_key_format(key, is_private=None):
     elif isinstance(key, numbers.Number):
         key_format = 'decimal'
         is_private = True
-    elif isinstance(key, bytes) and len(key) in [33, 65] and key[:1] in [b'\2', b'\3']:
+    elif isinstance(key, bytes) and len(key) == 33 and key[:1] in [b'\2', b'\3']:
         key_format = 'bin_compressed'
         is_private = False
-    elif isinstance(key, bytes) and (len(key) in [33, 65] and key[:1] == b'\4'):
+    elif isinstance(key, bytes) and len(key) == 65 and key[:1] == b'\4':
         key_format = 'bin'
         is_private = False
     elif isinstance(key, bytes) and len(key) == 33 and key[-1:] == b'\1':
